@@ -873,6 +873,7 @@ def value_pool(kind: str = "small") -> list:
     full += [
         MZone("", None, "```"), MZone("x", None, "```"), MZone("x\n", None, "```"), MZone("\n", None, "```"),
         MZone("```py\ninner\n```", "md", "````"), MZone("  indented\n\n\ttab", "yaml", "```"),
+        MZone("a\n\n\n\nb\n§1::x\nc  \n\n\n", None, "```"),  # runs of blank lines, a section-like line, trailing spaces: what line-based formatters touch
         MZone("A->B \"q\" \\n café // c\n===END===\n---\nK::v", None, "``````"), MZone("``", "x-y.z", "`````"),
     ]
     full += [
